@@ -402,15 +402,19 @@ X_LEAVES = [
 
 # ---- parsers with several options whose names are prefix-related, subclass-typed options with defaults ---------------
 FAMILIES = {
-    "Net": {"Net": {"width": "int"}, "ConvNet": {"kernel": "int", "width": "int"},
+    "Net": {"Net": {"width": "int"}, "ConvNet": {"kernel": "int", "stride": "int", "width": "int"},
             "MlpNet": {"hidden": "int", "dropout": "float", "width": "int"}},
-    "Opt": {"Opt": {"lr": "float"}, "Sgd": {"momentum": "float", "lr": "float"}, "Adam": {"eps": "float", "lr": "float"}},
+    "Opt": {"Opt": {"lr": "float"}, "Sgd": {"momentum": "float", "nesterov": "bool", "lr": "float"},
+            "Adam": {"eps": "float", "decay": "float", "lr": "float"}},
 }
+OPTIONAL_PARAMS = {"ConvNet": ["stride"], "MlpNet": ["dropout"], "Sgd": ["nesterov"], "Adam": ["decay"]}   # default None: dump omits them
 NAMEPOOLS = [["model", "model_ema"], ["model", "model_ema", "mod"], ["opt", "optim"], ["m", "model"], ["k", "k2", "k2b"],
              ["net", "network"], ["a", "ab", "abc"]]
 
 
 def param_value(rng, kind):
+    if kind == "bool":
+        return B(rng.random() < 0.5)
     return I(rng.choice([1, 2, 4, 5, 16, 32])) if kind == "int" else F(rng.choice([0.5, 0.25, 0.9, 2.0]))
 
 
@@ -444,10 +448,24 @@ def gen_x_multi(rng):
                 settings.append((name, "leaf", rng.choice(vals)))
     if rng.random() < 0.4:
         decls.append({"key": "epochs", "ty": INT, "default": I(1)})
-    ch = rng.choice(["args", "args", "object", "string"])
+    ch = rng.choice(["args", "args", "object", "string", "cfgfile"])
     if any(kind == "leaf" and has_obj(v) for _, kind, v in settings):
         ch = "object"
     case = {"kind": "x", "decls": decls, "channel": ch}
+    if rng.random() < 0.3:
+        # a FAILED earlier call in the same process, on another parser of the same shape: options given, then a --cfg that does
+        # not load (missing file / invalid content). It must not influence the parses under test.
+        pre = []
+        for d in decls:
+            if d["ty"][0] == "sub":
+                cls = rng.choice(sorted(fam))
+                pre.append("--%s=%s" % (d["key"], cls))
+                for q in sorted(fam[cls]):
+                    if q in OPTIONAL_PARAMS.get(cls, []) or rng.random() < 0.3:
+                        pre.append("--%s.%s=%s" % (d["key"], q, render(param_value(rng, fam[cls][q]))))
+        bad = rng.choice(["missing_file.yaml", "broken.yaml", "unknown_key.yaml"])
+        case["pre"] = pre + ["--cfg=" + bad]
+        case["files"] = {"broken.yaml": "a: [1, 2\n", "unknown_key.yaml": "no_such_option: 1\n"}
     if ch == "args":
         argv = []
         for name, kind, pl in settings:
@@ -481,10 +499,59 @@ def gen_x_multi(rng):
                 spec.append((S("init_args"), D([(S(q), v) for q, v in ps])))
             if spec:
                 kvs.append((S(name), D(spec)))
+        text = "".join("%s: %s\n" % (k[1], json.dumps(v[1]) if v[0] == "str" else render(v)) for k, v in kvs) or "{}"
         if ch == "object":
             case["input"] = D(kvs)
+        elif ch == "cfgfile":
+            case.setdefault("files", {})["main.yaml"] = text
+            case["input"] = ["--cfg=main.yaml"]
         else:
-            case["input"] = "".join("%s: %s\n" % (k[1], json.dumps(v[1]) if v[0] == "str" else render(v)) for k, v in kvs) or "{}"
+            case["input"] = text
+    return case
+
+
+# ---- options that may be given as a PATH to a file (enable_path=True): the value keeps a "__path__" entry -------------
+PATH_TYPES = [
+    (["dict", False, INT], [("m1.yaml", "cpu: 4\nmem: 16\n"), ("dir1/m2.json", '{"a": 1, "b": "2"}'), ("m3.yaml", "{}\n")],
+     [D([(S("cpu"), I(2))]), S("{x: 1}")]),
+    (["dict", False, STR], [("s1.yaml", "name: abc\nmode: x y\n")], [D([(S("k"), S("v"))])]),
+    (["dict", False, ANY], [("a1.yaml", "n: 1\nl: [1, two]\nd: {e: null}\n")], [D([(S("k"), L([I(1)]))])]),
+    (["union", [["dict", False, INT], NON]], [("m1.yaml", "cpu: 4\nmem: 16\n")], [NONE, D([(S("cpu"), I(2))])]),
+    (["list", INT], [("l1.txt", "1\n2\n3\n"), ("l2.yaml", "[4, 5]\n")], [L([I(1), S("2")]), S("[7]")]),
+    (["list", STR], [("l3.txt", "a\nb c\n")], [L([S("x")])]),
+    (["data", "D1"], [("d1.yaml", "a: 2\nb: y\n")], [D([(S("a"), S("3"))])]),
+]
+
+
+def gen_x_path(rng):
+    names = rng.choice([["limits"], ["limits", "name"], ["k", "k2"], ["a", "ab"]])
+    decls, settings, files = [], [], {}
+    for n, name in enumerate(names):
+        if n == 0 or rng.random() < 0.5:
+            t, fs, inline = rng.choice(PATH_TYPES)
+            decls.append({"key": name, "ty": t, "default": NONE, "enable_path": True})
+            if rng.random() < 0.75:
+                fname, content = rng.choice(fs)
+                files[fname] = content
+                settings.append((name, S(fname)))
+            elif rng.random() < 0.8:
+                settings.append((name, rng.choice(inline)))
+        else:
+            decls.append({"key": name, "ty": STR, "default": S("run")})
+            if rng.random() < 0.5:
+                settings.append((name, S("from-file")))
+    ch = rng.choice(["args", "object", "string", "cfgfile"])
+    case = {"kind": "x", "decls": decls, "channel": ch, "files": files}
+    text = "".join("%s: %s\n" % (k, json.dumps(v[1]) if v[0] == "str" else render(v)) for k, v in settings) or "{}"
+    if ch == "args":
+        case["input"] = ["--%s=%s" % (k, v[1] if v[0] == "str" else render(v)) for k, v in settings]
+    elif ch == "object":
+        case["input"] = D([(S(k), v) for k, v in settings])
+    elif ch == "string":
+        case["input"] = text
+    else:
+        files["main.yaml"] = text
+        case["input"] = ["--cfg=main.yaml"]
     return case
 
 
@@ -492,6 +559,8 @@ def gen_x(rng):
     r = rng.random()
     if r < 0.3:
         return gen_x_multi(rng)
+    if r < 0.4:
+        return gen_x_path(rng)
     r = rng.random()
     if r < 0.25:
         # a modelled type through the argv / string channel, now and then with a list append
@@ -839,7 +908,8 @@ def changed(case, obs):
 def nontrivial_key(case, obs):
     if not changed(case, obs):
         return None
-    return json.dumps([case["decls"], case.get("obj"), case.get("channel"), case.get("input")], sort_keys=True)
+    return json.dumps([case["decls"], case.get("obj"), case.get("channel"), case.get("input"), case.get("files"), case.get("pre")],
+                      sort_keys=True)
 
 
 def category(case, obs):
@@ -858,14 +928,21 @@ def category(case, obs):
 
 
 def describe(case, obs):
-    d = {"parser": ["add_argument('--%s', type=%s%s)" % (x["key"], py_ty(x["ty"]),
-                                                       "" if x.get("default", NONE) == NONE else ", default=%s" % py_val(x["default"]))
+    d = {"parser": ["add_argument('--%s', type=%s%s%s)" % (x["key"], py_ty(x["ty"]),
+                                                         "" if x.get("default", NONE) == NONE else ", default=%s" % py_val(x["default"]),
+                                                         ", enable_path=True" if x.get("enable_path") else "")
                     for x in case["decls"]]}
+    if case.get("files"):
+        d["files in the working directory"] = case["files"]
+    if case.get("pre") is not None:
+        d["earlier in the same process (another parser with the same options plus --cfg; the call fails)"] = "parse_args(%r)" % (case["pre"],)
+    if case.get("channel") == "cfgfile":
+        d["parser"].insert(0, "add_argument('--cfg', action=ActionConfigFile)")
     if case["kind"] == "ns":
         d["call"] = "parse_object(%s)" % py_val(case["obj"])
     elif case["channel"] == "object":
         d["call"] = "parse_object(%s)" % py_val(case["input"])
-    elif case["channel"] == "args":
+    elif case["channel"] in ("args", "cfgfile"):
         d["call"] = "parse_args(%r)" % (case["input"],)
     else:
         d["call"] = "parse_string(%r)" % (case["input"],)
@@ -910,6 +987,21 @@ def shrink(case):
         for i, d in enumerate(ds):
             for t2 in simpler_types(d["ty"]):
                 yield dict(case, decls=ds[:i] + [dict(d, ty=t2)] + ds[i + 1:])
+        if case.get("pre") is not None:
+            yield {k: v for k, v in case.items() if k != "pre"}
+            for i in range(len(case["pre"]) - 1):
+                yield dict(case, pre=case["pre"][:i] + case["pre"][i + 1:])
+        if len(ds) > 1 and case["channel"] in ("args", "object", "string"):
+            for i, d in enumerate(ds):
+                rest = ds[:i] + ds[i + 1:]
+                if case["channel"] == "args":
+                    inp = [a for a in case["input"] if not (a.startswith("--" + d["key"] + "=") or a.startswith("--" + d["key"] + ".")
+                                                            or a.startswith("--" + d["key"] + "+"))]
+                    pre = case.get("pre")
+                    c2 = dict(case, decls=rest, input=inp)
+                    if pre is not None:
+                        c2["pre"] = [a for a in pre if not (a.startswith("--" + d["key"] + "=") or a.startswith("--" + d["key"] + "."))]
+                    yield c2
         if case["channel"] == "args" and len(case["input"]) > 1:
             for i in range(len(case["input"])):
                 yield dict(case, input=case["input"][:i] + case["input"][i + 1:])
